@@ -160,6 +160,16 @@ def abcBox? (sqrt : K → K) (v : M3 K) : Option (Box K) :=
   Box.ofLengths? (lenA sqrt v) (lenLy sqrt v) (lenLz sqrt v) (tiltXY sqrt v) (tiltXZ sqrt v)
     (tiltYZ sqrt v) ⟨0, 0, 0⟩
 
+/-- one lattice angle passes `set_abc`'s check `0 < angle < 180`, in terms of its cosine: `vect_angle` clamps the cosine
+    into `[-1, 1]` and takes `arccos`, which maps `[-1, 1]` strictly decreasingly onto `[180°, 0°]`, so the angle is
+    strictly between 0 and 180 degrees exactly when the cosine is strictly between -1 and 1. -/
+@[inline] def cosStrict (x : K) : Bool := decide (-1 < x) && decide (x < 1)
+
+/-- the refusal at the head of `Box.set_abc`: `alpha <= 0 or alpha >= 180 or beta <= 0 or … → ValueError('lattice
+    angles must be between 0 and 180 degrees')`, evaluated on the cell's own angles as `normalize` hands them over. -/
+def angleGuard (sqrt : K → K) (v : M3 K) : Bool :=
+  cosStrict (cosAlpha sqrt v) && cosStrict (cosBeta sqrt v) && cosStrict (cosGamma sqrt v)
+
 structure Normalized (K : Type) where
   box : Box K
   pos : List (V3 K)
@@ -180,6 +190,13 @@ def normalize? (fl : K → Int) (pad : K) (sqrt : K → K) (b : Box K) (pbc : V3
     let pos2 := pos.map (fun p => b2.relToCart (b1.cartToRel p))
     let w := wrap fl pad b2 pbc pos2
     some ⟨w.box, w.pos, w.flags, (M3.mul (M3.inv b1.vects) w.box.vects).transpose⟩
+
+/-- `normalize` with BOTH refusals of the rebuild step: the `ValueError` of `set_abc` for a lattice angle that is not
+    strictly between 0 and 180 degrees (`angleGuard`) and the assertion of `set_lengths` (inside `abcBox?`).
+    `normalize_never_refuses` shows that neither fires for a non-singular cell. -/
+def normalizeG? (fl : K → Int) (pad : K) (sqrt : K → K) (b : Box K) (pbc : V3 Bool)
+    (pos : List (V3 K)) : Option (Normalized K) :=
+  if angleGuard sqrt (flip b).vects then normalize? fl pad sqrt b pbc pos else none
 
 end
 
